@@ -2,10 +2,15 @@ package props
 
 import (
 	"bytes"
+	"crypto/x509"
+	"regexp"
+
 	"encoding/hex"
 	"encoding/json"
 	"encoding/pem"
 	"fmt"
+	tdxtesting "github.com/google/go-tdx-guest/testing"
+	"github.com/google/go-tdx-guest/testing/testdata"
 	"net/url"
 	"strings"
 	"testing"
@@ -242,6 +247,78 @@ func TestC03(t *testing.T) {
 			}
 		}
 		gen.Exhaustive("single-bit flips of body and issuer-chain header of both responses", step == 1)
+	})
+
+	// (A2) Intel's recorded collateral for the sample quote under the EMBEDDED root (TrustedRoots == nil), always after a
+	// genuine verification in the same process: altered bodies must not start to count because genuine ones were seen.
+	gen.Direct(t, "intel-sample-collateral-history", func(t *testing.T) {
+		at := time.Date(2023, time.July, 1, 1, 0, 0, 0, time.UTC)
+		pool := x509.NewCertPool()
+		pool.AddCert(embeddedIntelRoot(t))
+		tcbURL := "https://api.trustedservices.intel.com/tdx/certification/v4/tcb?fmspc=50806f000000"
+		genuine := map[string]gen.Response{}
+		for u, r := range tdxtesting.TestGetter.Responses {
+			genuine[u] = gen.Response{Header: r.Header, Body: r.Body}
+		}
+		run := func(resp map[string]gen.Response) gen.Verdict {
+			ts := verify.TimeSet{PckCertChain: at, TcbInfo: at, QeIdentity: at, PckCrl: at, RootCaCrl: at}
+			o := &verify.Options{GetCollateral: true, Now: &ts, Getter: &gen.Getter{Resp: resp, Script: map[string][]gen.Response{}}}
+			gen.Eval()
+			return gen.Call(func() error { return verify.RawTdxQuote(testdata.RawQuote, o) })
+		}
+		if v := run(genuine); v.Panicked() {
+			gen.HarnessError(t, "genuine sample collateral crashes: %s", v.Panic)
+		}
+		alter := func(name string, u string, k c03Kind, f func([]byte) []byte) bool {
+			run(genuine) // the genuine response is seen first, in this very process
+			resp := map[string]gen.Response{}
+			for a, b := range genuine {
+				resp[a] = b
+			}
+			r := resp[u]
+			r.Body = f(append([]byte{}, r.Body...))
+			resp[u] = r
+			v := run(resp)
+			gen.Class("class:intel-sample-" + name)
+			gen.NonTrivial("intel-history", name, r.Body)
+			if v.Accepted() && len(gen.Authenticate(r.Body, r.Header[k.hdr], pool, at)) == 0 {
+				gen.Fail(t, gen.Violation{Key: "accepts-unauthentic:intel-sample-" + name, Oracle: "an altered response is rejected even after the genuine one was verified", Detail: "the sample quote is accepted with an altered, unauthentic " + k.name + " response (" + name + ") served after a genuine one",
+					Replay: map[string]any{"kind": "intel-collateral-history", "alteration": name}})
+				return false
+			}
+			return true
+		}
+		svnRe := regexp.MustCompile(`"svn":\d+`)
+		pceRe := regexp.MustCompile(`"pcesvn":\d+`)
+		if !alter("all-svns-zero", tcbURL, kindTcb, func(b []byte) []byte {
+			return pceRe.ReplaceAll(svnRe.ReplaceAll(b, []byte(`"svn":0`)), []byte(`"pcesvn":0`))
+		}) {
+			return
+		}
+		if !alter("statuses-up-to-date", tcbURL, kindTcb, func(b []byte) []byte {
+			return bytes.ReplaceAll(pceRe.ReplaceAll(svnRe.ReplaceAll(b, []byte(`"svn":0`)), []byte(`"pcesvn":0`)), []byte(`"OutOfDate"`), []byte(`"UpToDate"`))
+		}) {
+			return
+		}
+		step := 211
+		if gen.Tier() == "thorough" {
+			step = 13
+		}
+		for _, kk := range []struct {
+			u string
+			k c03Kind
+		}{{tcbURL, kindTcb}, {gen.QeIdentityURL, kindQe}} {
+			n := len(genuine[kk.u].Body) * 8
+			for bit := 0; bit < n; bit += step {
+				if !gen.ShardOwns(bit / step) {
+					continue
+				}
+				bit := bit
+				if !alter("bit", kk.u, kk.k, func(b []byte) []byte { b[bit/8] ^= 1 << uint(bit%8); return b }) {
+					return
+				}
+			}
+		}
 	})
 
 	// (B..F) structured alterations.
